@@ -517,6 +517,11 @@ func runWitnesses(t *testing.T, property string) {
 			if msg != "" {
 				if cfgReplay != "" {
 					if b, err := os.ReadFile(path); err == nil {
+						var rf replayFile
+						if json.Unmarshal(b, &rf) == nil {
+							rf.Message = fmt.Sprintf("fixed finding %s is back: %s", f.ID, msg)
+							b, _ = json.MarshalIndent(rf, "", " ")
+						}
 						_ = os.WriteFile(cfgReplay, b, 0o644)
 					}
 				}
